@@ -1,6 +1,7 @@
 import Props.Obligations
 import Spec.AuthData
 import Ctap.AuthData
+import Ctap.Layout
 import Ctap.HeadThm
 /-
   C07 — authenticator data is laid out byte-for-byte as WebAuthn specifies.
@@ -12,6 +13,19 @@ theorem ob_capacity : Gen.c_AUTHENTICATOR_DATA_LENGTH = Spec.authDataCapacity :=
 theorem ob_flags : Gen.flagsAuthenticatorDataFlags =
     [("USER_PRESENCE", Spec.flagUP), ("USER_VERIFIED", Spec.flagUV),
      ("ATTESTED_CREDENTIAL_DATA", Spec.flagAT), ("EXTENSION_DATA", Spec.flagED)] := by decide
+
+/-- the two serialiser bodies, read statement by statement off the source, are the specified
+    sequences of appends (rp id hash, flags byte, 32-bit big-endian counter, optional attested
+    credential data, optional extension map / aaguid, 16-bit big-endian length, id, key) -/
+theorem ob_layout : Gen.layoutAuthData = Spec.layoutAuthData ∧ Gen.layoutAttested = Spec.layoutAttested := by decide
+
+/-- hence what the source's statements do (the interpreter of `Ctap/Layout.lean` on the layouts
+    read off the source) is the model `authDataSerialize` the theorems below are about -/
+theorem source_is_model (cap : Nat) (rp : List Byte) (flags : Byte) (count : Nat) (acd : Option (Option Acd))
+    (ext : Option (List (List Byte))) :
+    runLayout cap (adEnvWith Gen.layoutAttested rp flags count acd ext) Gen.layoutAuthData [] =
+      authDataSerialize cap rp flags count acd ext := by
+  rw [ob_layout.1, ob_layout.2]; exact runLayout_authData cap rp flags count acd ext
 
 /-! #### lemmas -/
 
